@@ -58,6 +58,18 @@ class KD:
         return "KD(%s)" % "|".join(sorted(self.kind))
 
 
+class ST:
+    """abstract TypeState: the set of child expressions whose compile-time effects this state is guaranteed to include ("version label")"""
+    def __init__(self, label=()):
+        self.label = set(label)
+
+    def copy(self):
+        return ST(self.label)
+
+    def __repr__(self):
+        return "ST{%s}" % ",".join(sorted(self.label))
+
+
 class Ref:
     def __init__(self, target):
         self.target = target
@@ -106,6 +118,7 @@ class Interp:
         self.max_steps = max_steps
         self.steps = 0
         self.trace = []
+        self.visited = []
         self.unmodelled = set()
 
     # -- places -----------------------------------------------------------------------------
@@ -146,6 +159,11 @@ class Interp:
             elif isinstance(e, dict) and "f" in e:
                 v = self.field(v, e["f"])
         last = proj[-1]
+        if last == "*":
+            tgt = self.deref(v)
+            if isinstance(tgt, ST) and isinstance(val, ST):
+                tgt.label = set(val.label)
+            return
         if isinstance(last, dict) and "f" in last:
             if isinstance(v, Enum):
                 v.fields[last["f"]] = val
@@ -335,6 +353,8 @@ class Interp:
             if isinstance(v, Enum) and v.variant in ("Ok", "Err"):
                 return (v.variant == "Ok") == cal.endswith("is_ok")
             raise Undecided("is_ok on %r" % (v,))
+        if re.search(r"<impl value::kind::Kind>::merge_keep$|<impl value::kind::Kind>::merge$", cal):
+            return Enum("(tuple)", None)
         if re.search(r"value::kind::builder::<impl value::kind::Kind>::union$|<impl value::kind::Kind>::union$", cal):
             return KD(self.kd(a[0]).kind | self.kd(a[1]).kind)
         m = re.search(r"compiler::type_def::TypeDef::(\w+)$", cal)
@@ -367,6 +387,18 @@ class Interp:
                 d = self.td(a[0]); d.kind = set(self.kd(a[1]).kind); return d
             if n == "kind":
                 return Ref(KD(owner=self.td(a[0])))
+            if n.startswith("or_") and n[3:] in KINDS:
+                d = self.td(a[0]); d.kind = d.kind | {n[3:]}; return d
+            if n in ("returns", "returns_mut"):
+                return Ref(KD(set()))
+            if n == "with_returns":
+                return self.td(a[0])
+            if n in ("object", "array"):
+                return TD({n})
+            if n in ("any",):
+                return TD(set(KINDS))
+            if n in ("never", "undefined"):
+                return TD(set())
         if re.search(r"<compiler::type_def::TypeDef as std::ops::Deref(Mut)?>::deref(_mut)?$", cal):
             return Ref(KD(owner=self.td(a[0])))
         if cal.endswith("as std::clone::Clone>::clone"):
@@ -386,13 +418,32 @@ class Interp:
                 return v
             return UNK
         if cal == "compiler::expression::Expression::apply_type_info" or re.search(r"as compiler::expression::Expression>::apply_type_info$", cal):
-            return self.exprs[self.expr_of(a[0]).name].copy()
-        if re.search(r"<compiler::expression::Expr as compiler::expression::Expression>::type_info$", cal) or cal == "compiler::expression::Expression::type_info":
-            return Enum("compiler::state::TypeInfo", None, {"state": UNK, "result": self.exprs[self.expr_of(a[0]).name].copy()})
+            e = self.expr_of(a[0])
+            st = self.deref(a[1]) if len(a) > 1 else None
+            if isinstance(st, ST):
+                st.label.add(e.name)
+            self.visited.append(e.name)
+            return self.exprs[e.name].copy()
+        if re.search(r"as compiler::expression::Expression>::type_info$", cal) or cal == "compiler::expression::Expression::type_info":
+            e = self.expr_of(a[0])
+            st = self.deref(a[1]) if len(a) > 1 else None
+            self.visited.append(e.name)
+            out_state = ST(st.label | {e.name}) if isinstance(st, ST) else UNK
+            return Enum("compiler::state::TypeInfo", None, {"state": out_state, "result": self.exprs[e.name].copy()})
+        if cal == "<compiler::state::TypeState as std::clone::Clone>::clone":
+            st = self.deref(a[0])
+            return st.copy() if isinstance(st, ST) else UNK
+        if cal == "compiler::state::TypeState::merge":
+            x, y = self.deref(a[0]), self.deref(a[1])
+            if isinstance(x, ST) and isinstance(y, ST):
+                return ST(x.label & y.label)
+            return UNK
+        if re.search(r"compiler::state::TypeInfo::map_result", cal):
+            return a[0]
         if re.search(r"as compiler::expression::Expression>::resolve_constant$", cal) or cal == "compiler::expression::Expression::resolve_constant":
             return self.consts.get(self.expr_of(a[0]).name, NONE)
         if cal == "compiler::state::TypeInfo::new":
-            return Enum("compiler::state::TypeInfo", None, {"state": UNK, "result": a[1]})
+            return Enum("compiler::state::TypeInfo", None, {"state": self.deref(a[0]) if isinstance(self.deref(a[0]), ST) else a[0], "result": a[1]})
         if re.search(r"<std::option::Option<T> as std::cmp::PartialEq>::eq$", cal):
             x, y = self.deref(a[0]), self.deref(a[1])
             if isinstance(x, Enum) and isinstance(y, Enum):
@@ -418,7 +469,8 @@ class Interp:
 def evaluate_type_info(facts, body_name, self_value, exprs, consts=None):
     """abstractly evaluate `<X as Expression>::type_info(&self, &state)`; returns the TD of TypeInfo.result"""
     it = Interp(facts, exprs, consts)
-    res = it.call_body(body_name, [Ref(self_value), Ref(UNK)])
+    res = it.call_body(body_name, [Ref(self_value), Ref(ST())])
+    it.final_state = res.fields.get("state") if isinstance(res, Enum) else None
     r = res.fields.get("result") if isinstance(res, Enum) else None
     if not isinstance(r, TD):
         raise Undecided("no TypeDef result (%r); unmodelled callees: %s" % (res, sorted(it.unmodelled)[:3]))
